@@ -3,6 +3,9 @@ package c06
 import (
 	"context"
 	"fmt"
+	"io"
+	"log/slog"
+	"os"
 	"strconv"
 	"strings"
 	"sync"
@@ -12,6 +15,7 @@ import (
 
 	"pgregory.net/rapid"
 
+	"github.com/form3tech-oss/f1/v2/pkg/f1"
 	f1testing "github.com/form3tech-oss/f1/v2/pkg/f1/testing"
 	"github.com/form3tech-oss/f1/v2/verifharness/vlib"
 )
@@ -164,6 +168,7 @@ type lifecycleCase struct {
 	DurMs    int
 	BodyUs   int
 	Second   bool // the judged run is the second run of the same registered scenario in this process
+	ViaCLI   bool // through f1.New().Add().ExecuteWithArgs
 }
 
 func (c lifecycleCase) desc() string {
@@ -171,7 +176,7 @@ func (c lifecycleCase) desc() string {
 	for i, b := range c.Bodies {
 		bs[i] = b.String()
 	}
-	return fmt.Sprintf("%s c=%d ending=%s limit=%d dur=%dms cancel=%dms body=%dus setup=[%s] bodies=%v", c.Mode, c.Conc, c.Ending, c.Limit, c.DurMs, c.CancelMs, c.BodyUs, c.Setup, bs) + map[bool]string{true: " second-run-of-the-registered-scenario"}[c.Second]
+	return fmt.Sprintf("%s c=%d ending=%s limit=%d dur=%dms cancel=%dms body=%dus setup=[%s] bodies=%v", c.Mode, c.Conc, c.Ending, c.Limit, c.DurMs, c.CancelMs, c.BodyUs, c.Setup, bs) + map[bool]string{true: " second-run-of-the-registered-scenario"}[c.Second] + map[bool]string{true: " through-the-cli"}[c.ViaCLI]
 }
 
 func TestProp_Lifecycle(t *testing.T) {
@@ -262,7 +267,17 @@ func TestProp_Lifecycle(t *testing.T) {
 				vlib.ScenarioName, c.DurMs, c.Conc, c.Limit, c.Conc, c.Conc)
 		}
 		registry := vlib.NewScenarios(scenario)
-		if c.Second {
+		// one case in four (endings by limit or duration) through the public entry point: one F1
+		// instance, ExecuteWithArgs once or - second-run class - twice
+		c.ViaCLI = (c.Ending == "limit" || c.Ending == "duration") && rapid.IntRange(0, 3).Draw(rt, "viaCLI") == 0
+		app := f1.New().WithLogger(slog.New(slog.NewTextHandler(io.Discard, nil))).Add(vlib.ScenarioName, scenario)
+		if c.Second && c.ViaCLI {
+			warmUp.Store(true)
+			recNow.Store(&recorder{})
+			_ = app.ExecuteWithArgs([]string{"run", "users", vlib.ScenarioName, "-v", "--max-iterations", "3", "--concurrency", "1", "--max-duration", "5s"})
+			warmUp.Store(false)
+			recNow.Store(judged)
+		} else if c.Second {
 			// a first run of the same registered scenario (what a second `run` on one F1 instance sees):
 			// three iterations in users mode, recorded apart; the lifecycle of the judged run starts afresh
 			warmUp.Store(true)
@@ -298,13 +313,30 @@ func TestProp_Lifecycle(t *testing.T) {
 		spec.Opts.MaxDuration = time.Duration(c.DurMs) * time.Millisecond
 		spec.Opts.MaxIterations = c.Limit
 		spec.Opts.IgnoreDropped = true
-		out, err := vlib.Execute(spec)
-		if err != nil {
-			close(blocked)
-			rt.Fatalf("VERIF-INFRA: cannot execute %s: %v", c.desc(), err)
+		var resFailed bool
+		var resErr error
+		if c.ViaCLI {
+			spec.ScenarioFn = scenario
+			args, cfg, err := vlib.CLIArgs(spec)
+			if err != nil {
+				close(blocked)
+				rt.Fatalf("VERIF-INFRA: %v", err)
+			}
+			resErr = app.ExecuteWithArgs(args) // the command's error: the result's error, or "load test failed"
+			if cfg != "" {
+				os.Remove(cfg)
+			}
+			rec.add("do-returned", "", 0, nil)
+			resFailed = resErr != nil
+		} else {
+			out, err := vlib.Execute(spec)
+			if err != nil {
+				close(blocked)
+				rt.Fatalf("VERIF-INFRA: cannot execute %s: %v", c.desc(), err)
+			}
+			rec.add("do-returned", "", 0, nil)
+			resFailed, resErr = out.Result.Failed(), out.Result.Error()
 		}
-		rec.add("do-returned", "", 0, nil)
-		resFailed, resErr := out.Result.Failed(), out.Result.Error()
 		close(blocked)
 		log := rec.snapshot()
 
@@ -334,6 +366,9 @@ func TestProp_Lifecycle(t *testing.T) {
 		}
 		if c.Second {
 			cls = append(cls, "second-run-of-the-registered-scenario")
+		}
+		if c.ViaCLI {
+			cls = append(cls, "through-the-cli")
 		}
 		stats.Case("programs", c.desc(), nontrivial, cls, func() any {
 			return map[string]any{"case": c.desc(), "events": len(log)}
